@@ -1319,8 +1319,43 @@ def rule_late_accept_removal(rep, crate, rid_name='M-C02g'):
             rep.viol(rid, 'late-removal:not-own-accept', 'the store is not conditioned on the state\'s own late accept', loc(fn, st['line']))
 
 
+PARSE_PASSTHROUGH_OK = re.compile(r'(ToString>::to_string|<impl str>::parse|String as std::ops::Deref>::deref|String::as_str|Try>::branch|FromResidual<.*>>::from_residual|Result::<T, E>::ok|Option::<T>::(ok_or|ok_or_else|map|and_then|take))$')
+
+
+def parsed_unchanged(crate, fn, op, depth=0):
+    """(ok, why): the operand is the result of str::parse of some text, handed on without integer casts, conversions or
+    arithmetic; crate-local helpers are followed (their returned value must itself be such a value)."""
+    sl = fn.slice(op)
+    if sl.binops or sl.unops - {'Not'}:
+        return False, 'arithmetic %s' % sorted(sl.binops | sl.unops)
+    numeric = [c for c in sl.casts if c[0] and re.search(r'IntToInt|FloatToInt|IntToFloat|Transmute', str(c[0]))]
+    if numeric:
+        return False, 'cast %s' % numeric[:2]
+    seen_parse = False
+    for _b, t in sl.call_terms:
+        name = fn.callee_name(t)
+        if re.search(r'<impl str>::parse$', name):
+            seen_parse = True
+            continue
+        if PARSE_PASSTHROUGH_OK.search(name):
+            continue
+        g = crate.local_fn(name) if hasattr(crate, 'local_fn') else crate.fns.get(name)
+        if g is not None and depth < 2 and g.kind in ('Fn', 'AssocFn') :
+            ok, why = parsed_unchanged(crate, g, dict(op='copy', place=dict(local=0, proj=[])), depth + 1)
+            if not ok:
+                return False, 'helper %s: %s' % (short(name), why)
+            seen_parse = True
+            continue
+        if re.search(r'(parser::Parser::err|Spanned>::span|Ident::span)$', name):
+            continue
+        return False, 'call %s' % short(name)
+    if not seen_parse:
+        return False, 'no str::parse in the slice'
+    return True, ''
+
+
 def rule_priority_parse(rep, crate):
-    rid = rep.rule('M-C09d', 'explicit priority: Definition::named_attr stores into self.priority exactly the Ok value of str::parse::<usize>() of the attribute value (no narrower integer type, no conversion, no arithmetic): every n that fits usize replaces the default', floor=1)
+    rid = rep.rule('M-C09d', 'explicit priority: the value Definition::named_attr stores into self.priority (a usize) is the result of str::parse of the attribute text, handed on without integer cast, From/Into/TryFrom conversion or arithmetic (private helpers are followed): a narrower parse type would need such a conversion, so every n that fits usize replaces the default', floor=1)
     fn = crate.fns.get('parser::definition::Definition::named_attr')
     if not rep.anchor(rid, 'fn Definition::named_attr', fn is not None):
         return
@@ -1342,23 +1377,10 @@ def rule_priority_parse(rep, crate):
         return
     for op, line in stores:
         d = desc(fn, op) if op is not None else '?'
-        rep.inst(rid, 'priority-store', detail=d)
-        ok = d == 'call:core::str::<impl str>::parse.0'
-        ty = None
-        if ok:
-            r = trace_place(fn, trace(fn, op)[1]) if trace(fn, op)[0] == 'place' else None
-            calls = [t for b, t in fn.calls() if re.search(r'<impl str>::parse$', fn.callee_name(t))]
-            tys = {fn.locals[t['dest']['local']] for t in calls if desc(fn, dict(op='copy', place=dict(local=t['dest']['local'], proj=[]))).startswith('call:core::str::<impl str>::parse')}
-            # the parse whose result feeds the store: identify through the slice
-            sl = fn.slice(op)
-            tys = {fn.locals[t['dest']['local']] for _b, t in sl.call_terms if re.search(r'<impl str>::parse$', fn.callee_name(t))}
-            ty = sorted(tys)
-            ok = tys == {'std::result::Result<usize, std::num::ParseIntError>'}
-            src = [desc(fn, t['args'][0]) for _b, t in sl.call_terms if re.search(r'<impl str>::parse$', fn.callee_name(t))]
-            if ok and not all('to_string' in x for x in src):
-                ok = False
+        ok, why = parsed_unchanged(crate, fn, op) if op is not None else (False, 'not a plain value')
+        rep.inst(rid, 'priority-store', detail=dict(value=d[:120], ok=ok))
         if not ok:
-            rep.viol(rid, 'priority-store:value', 'self.priority receives %s (parse result type %s), expected the Ok value of tokens.to_string().parse::<usize>(): an explicit priority is truncated, converted or restricted to a narrower range' % (d[:160], ty), loc(fn, line))
+            rep.viol(rid, 'priority-store:value', 'self.priority receives %s which is not the unmodified result of parsing the attribute text (%s): an explicit priority is truncated, converted or restricted to a narrower range' % (d[:160], why), loc(fn, line))
 
 
 def rule_ignore_case_writers(rep, crate):
